@@ -40,7 +40,7 @@ TECH = {
  "C17": ("differential testing against a reference MD6: every digest size, every bit-length residue on 1-3 levels, Hypothesis over trees up to 4 levels (reduced rounds) and default rounds, reused objects",
          "d = 1..512, L in {0,1,2,3,64}, keys, rounds 1..8 and default; up to 36 (70) leaves."),
  "C18": ("translation-validation style differential testing: each generated table network (program) is validated against FIPS 46-3 on 64 single-bit blocks + special + random blocks; table shape and key independence",
-         "194 (>= 1000 thorough) programs incl. weak/semi-weak/parity-twin keys; exploration, not exhaustive over keys."),
+         "242 (>= 1000 thorough) programs incl. weak/semi-weak/parity-twin keys; exploration, not exhaustive over keys."),
  "C19": ("model-based testing against TLSH / Nilsimsa models: all 30 configurations x gate lengths, Hypothesis data classes, from_hash round trip, distance laws over produced and arbitrary digests; atheris (thorough)",
          "Digest or None == model; distances symmetric, zero on identical, equal across object/bytes forms."),
  "C20": ("exhaustive enumeration against itertools and brute force: every list <= 5 over 3 letters + repeat patterns <= 7/8, every target 0..sum for 600/3000 item lists, call histories",
